@@ -31,6 +31,9 @@ pub struct Cfg {
     /// lazer Random mod (taiko and mania variants) with this seed (forces the lazer representation)
     #[serde(default)]
     pub random_seed: Option<i32>,
+    /// lazer DifficultyAdjust with this circle size, as (value, mode: 0 osu! | 2 catch) (forces the lazer representation of that mode)
+    #[serde(default)]
+    pub da_cs: Option<(f32, u8)>,
 }
 
 impl Cfg {
@@ -40,6 +43,16 @@ impl Cfg {
             for acr in a.split(',').filter(|s| !s.is_empty()) {
                 im.insert(rosu_mods::GameModIntermode::from_acronym(acr.parse::<rosu_mods::Acronym>().expect("acronym")));
             }
+        }
+        if let Some((cs, mode)) = self.da_cs {
+            use rosu_mods::generated_mods as gm;
+            let mut lazer = im.with_mode(if mode == 2 { rosu_mods::GameMode::Catch } else { rosu_mods::GameMode::Osu });
+            if mode == 2 {
+                lazer.insert(rosu_mods::GameMod::DifficultyAdjustCatch(gm::DifficultyAdjustCatch { circle_size: Some(f64::from(cs)), ..Default::default() }));
+            } else {
+                lazer.insert(rosu_mods::GameMod::DifficultyAdjustOsu(gm::DifficultyAdjustOsu { circle_size: Some(f64::from(cs)), ..Default::default() }));
+            }
+            return lazer.into();
         }
         if self.da_scroll.is_some() || self.random_seed.is_some() {
             // mods with settings only exist in the lazer representation
